@@ -14,6 +14,7 @@ CFG = dict(
         "tamper": ("N * tamper_case", "check_tamper1"),
         "conc": ("N * conc_case", "check_conc1"),
         "replay": ("N * replay_case", "check_replay1"),
+        "merge": ("N * merge_case", "check_merge1"),
         "layout": ("layout_case", "check_layout"),
     },
     known_classes={0: "block-signatures-field", 1: "genesis-unlinked", 2: "merkle-duplicate-tail",
@@ -25,7 +26,7 @@ CFG = dict(
         "the correspondence runs use a symbolic (ideal) instantiation of hash/sign; concrete pre-image bytes are compared separately (kind layout)",
     ],
     assumptions=[
-        "workspaces carry no embeddings in the sequential histories (conflict detection and auto-merge inactive there); the auto-merge path is exercised by the concurrent kind only",
+        "workspaces carry no embeddings in the modelled histories (conflict detection and auto-merge inactive there); commits of workspaces WITH embeddings (conflicting / orthogonal directions, auto-merge on and off, sequential and concurrent) are judged by the implementation-only oracle of kind merge, without a model comparison",
         "removal of the TIP block is only detectable while the in-memory height is kept (a reloaded chain walks back to the last stored block): the removal theorem is about heights <= the verifier's height",
     ],
 )
